@@ -55,7 +55,9 @@ class Paraxial:
         wavelength = self.optic.primary_wavelength
         y, u = self._trace_generic(1.0, 0.0, z_start, wavelength)
         f2 = -y[0] / u[-1]
-        return np.abs(f2[0])
+        # each mirror reverses the sign of the image-space index
+        num_mirrors = sum(surf.is_reflective for surf in self.surfaces.surfaces)
+        return f2[0] * (-1) ** num_mirrors
 
     def F1(self):
         """Calculate the front focal point location
